@@ -60,10 +60,12 @@ import (
 	"github.com/aergoio/aergo/v2/internal/enc/base58"
 	"github.com/aergoio/aergo/v2/internal/enc/proto"
 	"github.com/aergoio/aergo/v2/internal/verifkit"
+	p2plist "github.com/aergoio/aergo/v2/p2p/list"
 	"github.com/aergoio/aergo/v2/pkg/component"
 	"github.com/aergoio/aergo/v2/state"
 	"github.com/aergoio/aergo/v2/state/statedb"
 	"github.com/aergoio/aergo/v2/types"
+	"github.com/aergoio/aergo/v2/types/dbkey"
 	"github.com/aergoio/aergo/v2/types/message"
 	"github.com/btcsuite/btcd/btcec/v2"
 	"github.com/btcsuite/btcd/btcec/v2/ecdsa"
@@ -557,7 +559,9 @@ func c14Arg(x *c14Ctx, class string) string {
 	case "daoidlc":
 		return []string{`"bpcount"`, `"BpCount"`, `"bpCOUNT"`}[(x.pos+x.salt)%3]
 	case "daoid2":
-		return []string{`"STAKINGMIN"`, `"GASPRICE"`, `"NAMEPRICE"`}[(x.pos+x.salt)%3]
+		return []string{`"STAKINGMIN"`, `"NAMEPRICE"`, `"namePrice"`}[(x.pos+x.salt)%3] // three texts: lists of up to three ids hold no duplicate
+	case "daoidgas": // the parameter every later transaction's fee is computed from
+		return `"GASPRICE"`
 	case "daoidbad":
 		return x.pick(`"NOSUCHID"`, `"BPCOUNT "`, `"BP"`, `"voteBP"`)
 	case "nstr":
@@ -1199,6 +1203,10 @@ func c14Readers(w *c14World, root []byte, sender []byte, rcpt string) (where str
 					enterprise.GetConf(ecs, k)
 				}
 			}},
+			// what the p2p service does when the chain service reports a change of the peer white list
+			{"p2p/list.RefineList", func() {
+				p2plist.NewListManager(nil, "", c14Acc{w: w, root: root}, nil, log.NewLogger("c14list"), w.spec.Public).RefineList()
+			}},
 		}
 	}
 	steps = append(steps, step{"mempool.setStateDB", func() { w.newPool(root, c14BestNo+1) }})
@@ -1208,6 +1216,32 @@ func c14Readers(w *c14World, root []byte, sender []byte, rcpt string) (where str
 		}
 	}
 	return "", nil
+}
+
+// c14Acc is the chain service as the p2p list manager sees it: GetEnterpriseConfig as in chain.(*ChainService).getEnterpriseConf
+type c14Acc struct {
+	w    *c14World
+	root []byte
+}
+
+func (a c14Acc) GetGenesisInfo() *types.Genesis                     { return nil }
+func (a c14Acc) GetConsensusInfo() string                           { return "" }
+func (a c14Acc) GetBestBlock() (*types.Block, error)                { return c14CDB{}.GetBestBlock() }
+func (a c14Acc) GetBlock([]byte) (*types.Block, error)              { return nil, fmt.Errorf("c14: no block store") }
+func (a c14Acc) GetHashByNo(types.BlockNo) ([]byte, error)          { return nil, fmt.Errorf("c14: no block store") }
+func (a c14Acc) GetChainStats() string                              { return "" }
+func (a c14Acc) GetSystemValue(types.SystemValue) (*big.Int, error) { return nil, fmt.Errorf("c14: not supported") }
+func (a c14Acc) ChainID(types.BlockNo) *types.ChainID               { return nil }
+func (a c14Acc) HardforkHeights() map[string]types.BlockNo          { return nil }
+func (a c14Acc) GetEnterpriseConfig(key string) (*types.EnterpriseConfig, error) {
+	ecs, err := statedb.GetEnterpriseAccountState(a.w.sdb.OpenNewStateDB(a.root))
+	if err != nil {
+		return nil, err
+	}
+	if strings.ToUpper(key) != string(dbkey.EnterpriseAdmins()) {
+		return enterprise.GetConf(ecs, key)
+	}
+	return enterprise.GetAdmin(ecs)
 }
 
 // ---------------------------------------------------------------- bookkeeping of findings
@@ -1593,6 +1627,42 @@ func c14Worker(t *testing.T, in *c14Input, shard int) *c14Partial {
 					}
 				}
 				// L4: the state after a connected block: the node's readers, then a second transaction
+				if o.newRoot != nil && o.votes {
+					// first what the RUNNING node does next: a vote that took effect has changed the parameters the node
+					// holds in memory (system.CommitParams); a plain transfer is admitted and executed with them.  (The readers
+					// below reload the parameters from the state, as a restarted node does.)
+					for pi := range in.Probes {
+						pc := in.Probes[pi]
+						if !(pc.Ty == "TRANSFER" && pc.Rc == "user" && pc.Ac == "addr") {
+							continue
+						}
+						c14Chain.set(w, o.newRoot)
+						mp2 := newPool(o.newRoot, c14BestNo+1)
+						pc.W, pc.S = c.W, "rich" // an account with funds (the stakers of some worlds have staked all they own)
+						n0 := nonce["rich"]
+						if c.S == "rich" {
+							n0++
+						}
+						prng := verifkit.Rng(int64(ci)*131 + int64(v) + int64(pi+1)*7919 + 1)
+						pb, err := c14Build(w, &pc, n0, prng)
+						if err != nil {
+							t.Fatalf("probe %d: %v", pi, err)
+						}
+						po := c14Run(w, mp2, o.newRoot, c14BestNo+1, pb.wire, false, false)
+						part.Extra++
+						outcomes["feeprobe:"+po.types+"/"+po.pool+"/"+po.exec]++
+						if po.panic != nil {
+							sig := c14Sig(&po)
+							sig["step"] = "second"
+							sig["after"] = o.op
+							finds.add(sig, c.payloadDesc()+" ; "+pc.payloadDesc(), c14Rank(c, v)+"/"+pc.shapeKey(),
+								c14Replay(w, &pc, v, pb, &po, map[string]interface{}{"first_case": c, "first_payload": b.descr, "first_tx_protobuf_hex": c14Hex(b.wire),
+									"gas_price_in_memory": system.GetGasPrice().String()}),
+								fmt.Sprintf("after the vote took effect a plain transfer panics in layer %s at %s (%s): %s\n first (admitted, executed, block connected): sender %s payload %s\n second: %s of 1 aer with gas limit 0 from an account with funds; gas price held by the node: %s\n world %s\n stack: %s",
+									po.panicAt, po.panic.site, po.panic.where, po.panic.val, c.S, b.descr, pc.Ty, system.GetGasPrice(), w.spec.Name, strings.Join(po.panic.frames, " <- ")))
+						}
+					}
+				}
 				if o.newRoot != nil {
 					if where, p := c14Readers(w, o.newRoot, w.accts[c.S].addr, o.rcpt); p != nil {
 						o2 := o
@@ -1610,6 +1680,11 @@ func c14Worker(t *testing.T, in *c14Input, shard int) *c14Partial {
 							probeRc := c14RcptName(pc.Rc)
 							if pc.Rc == "nameA" || pc.Ac == "nameA" {
 								probeRc = types.AergoName // transfers through the name service
+							} else if pc.Ty == "TRANSFER" && pc.Rc == "user" {
+								if !o.votes {
+									continue
+								}
+								probeRc = types.AergoSystem // a plain transfer after a vote: its fee is computed from the voted parameters
 							}
 							if probeRc != o.rcpt {
 								continue // a governance contract reads only its own storage
